@@ -257,14 +257,17 @@ func (s *IndexedState) Add(ctx *Context, id string, x Map) (string, error) {
 	delete(s.cachedRules, id)
 	s.slock(ctx, false)
 	id, err := s.add(ctx, id, x)
+	var js []byte
+	if nil == err {
+		// Persist the prepared fact (with its absolute 'expires'),
+		// not the given map.  Otherwise a 'ttl' would start over
+		// every time the location is loaded.
+		fact := s.IdToFact[id]
+		js, err = json.Marshal(&fact)
+	}
 	s.sunlock(ctx, false)
 
 	if nil != err {
-		return "", err
-	}
-
-	js, err := json.Marshal(&x)
-	if err != nil {
 		return "", err
 	}
 	d := Pair{[]byte(id), js}
